@@ -50,6 +50,13 @@ type Loader struct {
 	// first reference found to designate an object of another kind than its position allows
 	kindMismatch error
 	backtrack    map[string][]func(value any)
+	// document and location every schema object was first walked with (where it lives)
+	schemaHomes map[*Schema]schemaHome
+}
+
+type schemaHome struct {
+	doc  *T
+	path *url.URL
 }
 
 // NewLoader returns an empty Loader
@@ -65,6 +72,7 @@ func (loader *Loader) resetVisitedPathItemRefs() {
 	loader.visitedPath = nil
 	loader.backtrack = make(map[string][]func(value any))
 	loader.kindMismatch = nil
+	loader.schemaHomes = nil
 }
 
 // refKindMismatch records that ref, met again while it was being resolved, designates an object of the wrong kind.
@@ -1107,6 +1115,16 @@ func (loader *Loader) resolveSchemaRef(doc *T, component *SchemaRef, documentPat
 	value := component.Value
 	if value == nil {
 		return nil
+	}
+	// A schema reached again through a reference in another document: the references below it that are
+	// still open (they closed a cycle) are relative to the document the schema lives in.
+	if home, ok := loader.schemaHomes[value]; ok {
+		doc, documentPath = home.doc, home.path
+	} else {
+		if loader.schemaHomes == nil {
+			loader.schemaHomes = make(map[*Schema]schemaHome)
+		}
+		loader.schemaHomes[value] = schemaHome{doc: doc, path: documentPath}
 	}
 
 	// ResolveRefs referred schemas
